@@ -420,6 +420,14 @@ def invariant(rep: Report, prog: Program) -> None:
         raise AnalysisError("R10.4: fewer than two returning paths in Budget.consume")
     rep.floor("R10.4", 5)
 
+    rep.rule("R10.6", "no token is spent on a retry that cannot happen: every time-independent stop test of _handle_failure - including the global attempt cap `attempt >= max_attempts` - comes before budget.consume() (= C03 R3.4)")
+    from .c03 import check_failure_table
+    from .common import RuleView
+
+    check_failure_table(RuleView(rep, "R10.6", only=("R3.4",)), prog)
+    rep.instance("R10.6", "_handle_failure|stop-tests-before-consume")
+    rep.ok("R10.6")
+    rep.floor("R10.6", 1)
     from .common import forwarding_slice
 
     forwarding_slice(rep, "R10.5", prog, ("budget",), "the shared budget the caller configured is the budget that is charged: `budget` reaches every retry component unchanged through decorator, sugar classes and from_config (= the budget obligations of C12 R12.3)")
